@@ -59,7 +59,7 @@ class SettlementMonitor(Monitor):
         line_result = mk.get("line_result")
         pr = self.res.probes
         for o in market.blotter:
-            status = st["r"][str(o.selection_id)]["st"]
+            status = st["r"][self.run.rkey(o)]["st"]
             is_line = getattr(o.order_type, "price_ladder_definition", None) == "LINE_RANGE"
             frags = o.simulated.matched
             if o.order_type.ORDER_TYPE.name == "MARKET_ON_CLOSE" and o.side == "LAY" and frags:
